@@ -1435,8 +1435,15 @@ class TranslateFunction(Function):
         string = as_string(self.string(kind, data, pos, namespaces, variables))
         fromchars = as_string(self.fromchars(kind, data, pos, namespaces, variables))
         tochars = as_string(self.tochars(kind, data, pos, namespaces, variables))
-        table = dict(zip([ord(c) for c in fromchars],
-                         [ord(c) for c in tochars]))
+        table = {}
+        for idx, char in enumerate(fromchars):
+            # the first occurrence of a character counts; characters without
+            # a counterpart in the third argument are removed
+            if ord(char) not in table:
+                if idx < len(tochars):
+                    table[ord(char)] = ord(tochars[idx])
+                else:
+                    table[ord(char)] = None
         return string.translate(table)
     def __repr__(self):
         return 'translate(%r, %r, %r)' % (self.string, self.fromchars,
